@@ -65,6 +65,14 @@ def predict (name : String) (sc : List Lie) (arg : Nat) : Option (Res String) :=
   | "into_iter" => r (iterCount fuel b 0) fun n => s!"n_{n}"
   | "reader_read" => some ((remaining b).bind fun rm => (copyToSlice fuel b (min rm arg)).bind fun _ => .ok s!"Some({min rm arg})")
   | "take_chunks_vectored" => r (takeChunksVectored b arg 4) fun l => s!"n_{l.length}"
+  -- round 8: Take / Chain / Limit around the adversary
+  | "copy_to_bytes" => r (defaultCopyToBytes fuel b arg) fun n => s!"len_{n}"
+  | "take_copy_to_bytes" => r (takeCopyToBytes fuel b (arg + 3) arg) fun n => s!"len_{n}"
+  | "chain_copy_to_bytes" => r (chainCopyToBytes fuel b 3 arg) fun n => s!"len_{n}"
+  | "chain_chunks_vectored" => r (chainChunksVectored b 3) fun n => s!"n_{n}"
+  | "split_bytesmut_put" => r (putGrowLoop fuel b 0 64) fun (len, _) => s!"len_{len}"
+  | "limit_put" => r (putLimit fuel b arg 0 8) fun (len, _, _) => s!"len_{len}"
+  | "chain_get_u64" => r (chainGetFixed fuel [97, 98] b 8) fun bs => s!"v_{beVal bs}"
   | _ => none
 
 def kvOf (ws : List String) (k : String) : Option String :=
